@@ -291,10 +291,20 @@ func c05r3(r *R) {
 
 func c05r4(r *R) {
 	pp := r.method(".", "HTTPProxy", "pacProxy")
-	ps, _ := enumPaths(pp, 4096, 1)
+	ps, _ := enumPathsInline(pp, 20000, 1, func(c *ssa.Function) bool {
+		return strings.HasPrefix(fname(c), "(*forwarder.HTTPProxy).") && c.Parent() == nil
+	})
 	const find = `invoke forwarder.PACResolver.FindProxyForURL($0.pac, $1.URL, "")`
 	var why []string
 	for _, p := range ps {
+		// the script is evaluated for this very request on every path, and its answer is what is parsed
+		fi := p.eventIndex(0, "call", eq(find))
+		if fi < 0 {
+			why = append(why, "a path answers without evaluating the PAC script for this request's URL (a remembered result is the route of some other URL)")
+		}
+		if pi := p.eventIndex(0, "call", prefix("(pac.Proxies).First(")); pi >= 0 && p.Events[pi].Desc != "(pac.Proxies).First("+find+"#0)" {
+			why = append(why, "the result list that is parsed is not this evaluation's answer: "+p.Events[pi].Desc)
+		}
 		if p.holds("(" + find + "#1 != nil)") && !(p.Ret[0] == "nil" && p.Ret[1] == find+"#1") {
 			why = append(why, "resolver error is not returned")
 		}
